@@ -967,6 +967,22 @@ impl Check for ClientCheck {
         match self.id {
             "C07" => {
                 fams.push(Family::new("reply_packets_in_unusual_order", UNUSUAL_ORDER_N, true, |i, _| unusual_order_plan(i)));
+                // the terminal refuses its initialisation the first one / two / three times it is asked (in
+                // Feig::new, and again if the client asks again later): whatever the client does about its
+                // configuration, it does it without touching open transactions
+                fams.push(Family::new("initialisation_refused_the_first_times", 3 * 4, true, |i, _| {
+                    let b = |t: &str| OpSpec::Begin { token: t.into(), res: ResOutcome::success() };
+                    let ops = match i / 3 {
+                        0 => vec![b("A"), b("B"), OpSpec::Commit { token: "A".into(), amount: 100, rev: RevOutcome::success(), cleanup: CleanupSpec::plain() }, OpSpec::Cancel { token: "B".into(), rev: RevOutcome::success(), cleanup: CleanupSpec::plain() }],
+                        1 => vec![b("A"), b("B"), b("C"), OpSpec::Cancel { token: "A".into(), rev: RevOutcome::success(), cleanup: CleanupSpec::plain() }, OpSpec::Commit { token: "C".into(), amount: 100, rev: RevOutcome::success(), cleanup: CleanupSpec::plain() }],
+                        2 => vec![b("A"), OpSpec::ReadCard { card: CardOutcome { pre: 0, kind: CardKind::Card { uid: Some("04a1b2c3d4e5f6".into()), apps: None, nested_apps: None, no_tlv: false }, delay_ms: 0 } }, b("B"), OpSpec::Commit { token: "A".into(), amount: 100, rev: RevOutcome::success(), cleanup: CleanupSpec::plain() }],
+                        _ => vec![b("A"), OpSpec::Commit { token: "A".into(), amount: 100, rev: RevOutcome::success(), cleanup: CleanupSpec::plain() }, b("A"), b("B"), OpSpec::Cancel { token: "A".into(), rev: RevOutcome::success(), cleanup: CleanupSpec::plain() }],
+                    };
+                    let mut p = ClientPlan::plain(ops);
+                    p.cfg.max_tx = 3;
+                    p.pt.init_abort_first_n = 1 + (i % 3) as u8;
+                    p
+                }));
                 // a slow but healthy terminal while the card-reading time is configured short (one reservation,
                 // one reversal: their time-outs are not the card reading's)
                 fams.push(Family::new("slow_terminal_with_short_card_reading_time", 4 * 2, true, |i, _| {
@@ -1098,6 +1114,30 @@ impl Check for ClientCheck {
                 // boundary grid: pre x final, exhaustive over the listed boundary values
                 let pres: Vec<u64> = vec![0, 1, 2, 2500, 99_999, 100_000, 999_999_999_998, 999_999_999_999];
                 let n = pres.len() as u64 * 9 * 3;
+                // the terminal's status information of the reservation reports another amount than the one
+                // requested (a partial approval, a tip, a rounding): the release is computed from the
+                // *configured* pre-authorisation amount
+                fams.push(Family::new("reservation_status_reports_another_amount", 5 * 4, true, |i, _| {
+                    let shown = [0u64, 1, 2000, 2499, 999_999_999_999][(i % 5) as usize];
+                    let fin = [0u64, 1200, 2500, 5000][(i / 5) as usize];
+                    let mut p = ClientPlan::plain(vec![
+                        OpSpec::Begin { token: "A".into(), res: ResOutcome::success() },
+                        OpSpec::Commit { token: "A".into(), amount: fin, rev: RevOutcome::success(), cleanup: CleanupSpec::plain() },
+                    ]);
+                    p.cfg.pre_auth = 2500;
+                    p.pt.reservation_status_amount = Some(shown);
+                    p
+                }));
+                // one fault at every emission point of begin - commit / begin - cancel: whatever is retried, the
+                // release goes against the receipt of the reservation the terminal completed
+                {
+                    let b = |t: &str, pre: u8| OpSpec::Begin { token: t.into(), res: ResOutcome { pre, status: StatusMode::WithReceipt, prints: 1, end: EndSpec::Completion } };
+                    let wl = vec![
+                        vec![b("A", 1), OpSpec::Commit { token: "A".into(), amount: 700, rev: RevOutcome { pre: 1, status: true, prints: 0, end: EndSpec::Completion }, cleanup: CleanupSpec::plain() }],
+                        vec![b("A", 0), OpSpec::Cancel { token: "A".into(), rev: RevOutcome::success(), cleanup: CleanupSpec::plain() }, b("A", 0), OpSpec::Commit { token: "A".into(), amount: 2500, rev: RevOutcome::success(), cleanup: CleanupSpec::plain() }],
+                    ];
+                    fams.push(fault_at_every_point("fault_at_every_point_of_begin_and_commit", wl, vec![FaultKind::Eof, FaultKind::EofMid(2), FaultKind::Reset, FaultKind::EpipeAfter, FaultKind::BadBody], 1));
+                }
                 // a slow but healthy terminal while the card-reading time is configured short: reservation,
                 // release and clean-up take as long as they take (their time-outs are not the card reading's)
                 fams.push(Family::new("slow_terminal_with_short_card_reading_time", 4 * 2, true, |i, _| {
